@@ -9,6 +9,7 @@ pub fn main(_args: &[String]) {
             "address": c.address, "timeout": c.timeout, "max_packet_length": c.max_packet_length, "auth_cookie_expiry": c.auth_cookie_expiry,
             "auth_secret": c.auth_secret.clone().unwrap_or_else(|| "<none>".into()),
             "rate_limiter": c.rate_limiter.as_ref().map(|r| json!({"duration": r.duration, "limit": r.limit})).unwrap_or(json!("none")),
+            "server_id": match &c.adapters.authentication { passage::config::AuthenticationAdapter::Mojang(m) => m.server_id.clone(), _ => "<not mojang>".into() },
             "proxy_protocol": c.proxy_protocol.as_ref().map(|p| json!({"allow_v1": p.allow_v1, "allow_v2": p.allow_v2})).unwrap_or(json!("none")),
         }),
         Err(e) => json!({"ok": false, "error": e.to_string()}),
